@@ -200,6 +200,11 @@ pub struct World {
     pub heartbeat: Arc<AtomicU64>,
 }
 
+thread_local! { static EPMD_CREATION_OVERRIDE: std::cell::Cell<Option<u32>> = const { std::cell::Cell::new(None) }; }
+/// The creation the fake EPMD of this thread's executions assigns (None = EPMD_CREATION). One execution runs per thread.
+pub fn set_epmd_creation(v: Option<u32>) { EPMD_CREATION_OVERRIDE.with(|c| c.set(v)); }
+pub fn epmd_creation() -> u32 { EPMD_CREATION_OVERRIDE.with(|c| c.get()).unwrap_or(EPMD_CREATION) }
+
 async fn epmd_task(l: tokio::net::TcpListener, peer_port: u16, log: Arc<Mutex<Vec<Vec<u8>>>>) {
     use tokio::io::{AsyncReadExt, AsyncWriteExt};
     loop {
@@ -216,7 +221,7 @@ async fn epmd_task(l: tokio::net::TcpListener, peer_port: u16, log: Arc<Mutex<Ve
                 Some(120) => {
                     // ALIVE2_REQ -> ALIVE2_X_RESP with a 32-bit creation; the registration lives as long as the socket
                     let mut r = vec![118u8, 0];
-                    r.extend_from_slice(&EPMD_CREATION.to_be_bytes());
+                    r.extend_from_slice(&epmd_creation().to_be_bytes());
                     let _ = s.write_all(&r).await;
                     let mut sink = [0u8; 16];
                     let _ = s.read(&mut sink).await;
